@@ -49,7 +49,7 @@ def parent_of(spec):
     if g is None:
         return None
     if spec.get("chunk"):
-        return chunk_parent(g, spec["chunk"][0], spec["chunk"][1])
+        return chunk_parent(g, spec["chunk"][0], spec["chunk"][1], strand=spec.get("chunk_strand", "+"), idiom=spec.get("chunk_idiom", "api"))
     return chrom_parent(g)
 
 
@@ -306,6 +306,9 @@ def strat_obj(draw, tier="quick", kinds=("collection", "collection", "collection
             else:
                 cs = draw(st.integers(0, n - 1))
                 sp["chunk"] = [cs, draw(st.integers(cs + 1, n))]
+            if kind not in ("collection", "vc"):
+                # the chunk may be the reverse complement of its window
+                sp["chunk_strand"] = draw(st.sampled_from(["+", "+", "-"]))
     if explicit_bounds:
         # collection bounds given explicitly: inside the sequence / chunk window and containing every member
         lo_m = _lo(kind, o)
